@@ -20,6 +20,7 @@ pub mod c15;
 pub mod c16;
 pub mod c17;
 pub mod c18;
+pub mod c19;
 
 pub fn registry() -> Vec<Entry> {
     vec![
@@ -180,6 +181,14 @@ pub fn registry() -> Vec<Entry> {
             20_000,
             "single- and multi-file programs (four sources, optional malformed lines, optional include split, all surface styles incl. leading blank lines, tabs and comments) written to a scratch directory and linted by the rva binary (dev, one in four release) in 8 modes: compact / pretty / JSON x default / --all-files, plus colour variants. Checked: JSON parses with the documented shape (unknown fields rejected); compact, pretty and JSON show the same (file, line, columns, severity, title) items under the same file selection; 'found in other files' counts; pretty and compact list the same items in the same order; each pretty excerpt is the source line with the marker under the reported columns; colour output minus ANSI equals --no-color; items are ordered by position within each file; titles non-empty; one severity per kind; RVParser::run over an in-memory reader with the same files gives the CLI's --all-files list. Non-trivial = >= 2 diagnostics.",
             &["JSON carries no file filter: it is compared with --all-files output and, filtered to the base file, with the default output", "a CLI crash or non-zero exit is counted here and reported by C06"],
+        ),
+        entry::<c19::C19>(
+            "C19",
+            300,
+            3000,
+            150_000,
+            "(a) dumps of real analyses of programs from three generators (ABI-safe wild functions with stack facts, chaotic control flow with function annotations, syntactic programs with CSR code): the --yaml text is loaded back (as CfgWrapper and as its node list) and compared field by field with the live graph (edges, labels, function entry/exit, value and memory facts, liveness, u_def), and dump(load(dump)) must be textually identical; (b) generated facts: one fact of the loaded structure is replaced (value of every variant - constant, address, memory, register+scalar, original+scalar, memory-at-register/original, CSR value, memory-at-CSR - with offsets 0, +-1, +-4, +-2048, i32::MIN/MAX; memory locations stack/CSR/CSR+offset with the same offsets; an edge, a liveness bit, a function entry/exit, a label), dumped, reloaded and compared with the mutated structure; (c) injectivity: original, mutant and a twin mutant (same place and payload, different variant) must have pairwise different dumps whenever their structures differ. Non-trivial = a pair of structurally different results was compared; value kinds seen are tabulated.",
+            &["NodeWrapper's own == compares parser nodes by uuid, so an own structural comparison is used", "a CfgWrapper is a transparent sequence of NodeWrapper, which is how single facts are replaced through the public API"],
         ),
     ]
 }
